@@ -279,7 +279,15 @@ func (c *e2eCtx) newScenario(i int, r *rand.Rand, o proj.Opts, mkcfg func(r *ran
 		}
 		c.count("store:packed")
 	}
-	s.cfg = mkcfg(r, s.oldRev)
+	// one scenario in seven names the old revision by an ANNOTATED tag (a tag object, not the commit)
+	oldName := s.oldRev
+	if i%7 == 4 {
+		if _, err := proj.Git(s.dir, 1700000060, "tag", "-a", "base-annotated", "-m", "base", s.oldRev); err == nil {
+			oldName = "base-annotated"
+			c.count("old-revision:annotated-tag")
+		}
+	}
+	s.cfg = mkcfg(r, oldName)
 	// one configuration in six ignores a library that lies ON an import path (imported by some
 	// package, importing others): its files are not instrumented, the packages behind it still are
 	// and still belong to the import closure of the mains that reach them through it
